@@ -36,7 +36,7 @@ type Mem struct {
 	lo, hi *Term
 	depth  int
 	id     int
-	fam    string // family key (for the read log)
+	fam    string                 // family key (for the read log)
 	fn     func(addr *Term) *Term // mLambda: pointwise definition
 }
 
